@@ -169,12 +169,27 @@ def _eval_cond(cond, vars_):
         return False
 
 
-def _plain_text(tokens):
+def _plain_text(tokens, env=None):
+    """the text of a choice: plain text, or (given the variables) text with simple {expr} interpolations evaluated by the
+    harness itself; None when it cannot be decided here (format specs, inline conditionals, failing expressions)"""
     if isinstance(tokens, str):
         return tokens
     if all(t.get("type") == "text" for t in tokens):
         return "".join(t["value"] for t in tokens)
-    return None
+    if env is None:
+        return None
+    out = []
+    for t in tokens:
+        if t.get("type") == "text":
+            out.append(t["value"])
+        elif t.get("type") == "expression" and ":" not in t.get("code", ":"):
+            try:
+                out.append(str(eval(t["code"], {"__builtins__": SAFE_BUILTINS}, copy.deepcopy(env))))
+            except Exception:  # noqa
+                return None
+        else:
+            return None
+    return "".join(out)
 
 
 def expected_top_choices(story, st, sec=None, own_used=None):
@@ -197,7 +212,7 @@ def expected_top_choices(story, st, sec=None, own_used=None):
     for c in p.get("choices", []):
         if c.get("section", 0) != sec:
             continue
-        txt = _plain_text(c["text"])
+        txt = _plain_text(c["text"], env)
         if not c.get("sticky", True):
             if txt is None:
                 return None
@@ -217,12 +232,12 @@ def oracle_c02(case):
     story = case["story"]
     out = []
     prev = real["init"]
-    states = [(-1, {"op": "init"}, {"out": prev["out"]}, prev)] + \
-        [(i, op, s["resp"], s["state"]) for i, (op, s) in enumerate(zip(case["ops"], real["steps"]))]
+    states = [(-1, {"op": "init"}, {"out": prev["out"]}, prev, None)] + \
+        [(i, op, s["resp"], s["state"], s.get("pre_hook_vars")) for i, (op, s) in enumerate(zip(case["ops"], real["steps"]))]
     exp_sec = 0      # the @join section the player is in, tracked independently of the engine
     own_used = set()  # one-time choices taken, as (passage they were shown in : text : target) — kept by the oracle itself
     own_past = []
-    for i, op, resp, st in states:
+    for i, op, resp, st, pre_hook in states:
         name = op["op"]
         if own_used is None:
             pass
@@ -290,7 +305,13 @@ def oracle_c02(case):
                     else:       # the constructor's own chain: Start -> P(args) -> …
                         leaked = any(p.get("params") and pid != final and isinstance(st["vars"].get("n_" + pid), int) and st["vars"]["n_" + pid] > 0
                                      for pid, p in story["passages"].items())
-                    cls = "C02-stale-after-hook" if hooks_now else ("C02-leaked-scope" if leaked else None)
+                    # C02-F1: the list was filtered BEFORE the turn_end hooks ran — it is exactly what is enabled in the
+                    # variables as they stood when the hooks started (recorded by the harness), and a hook changed them
+                    stale = False
+                    if hooks_now and pre_hook is not None and pre_hook != st["vars"]:
+                        exp0 = expected_top_choices(story, dict(st, vars=pre_hook), exp_sec, own_used)
+                        stale = exp0 is not None and [(t, a, s_) for (t, a, s_, _) in exp0] == got_cmp
+                    cls = "C02-stale-after-hook" if stale else ("C02-leaked-scope" if leaked else None)
                     out.append(fail(i, f"offered top-level choices {got_cmp} but enabled ones are {exp_cmp}", cls))
         prev = st
     return out
